@@ -17,6 +17,8 @@ pub mod polynomial;
 pub mod tridiagonal;
 pub mod banded;
 pub mod sparse;
+#[cfg(feature = "verif")]
+pub mod verif;
 
 // Re-exports
 pub use self::complex::{Complex, Cmplx};
